@@ -226,6 +226,27 @@ def run(ctx):
                 if ok_ is not True:
                     ctx.violation('a valid (digest, signature, public key) triple is not accepted in every documented form of its parts',
                                   {'op': 'verify forms', 'public_key_as': nm, 'digest_as': znm, 'observed': str(ok_)})
+    # ---- short signatures: the nonce (n+1)/2 gives an r of 21 bytes, so DER + hash type is shorter than the 64-byte raw form;
+    # every documented form of such a signature is accepted like any other
+    for _ in range(6 if T else 3):
+        kd = Key(rng.randrange(1, N))
+        zz = rng.getrandbits(256)
+        try:
+            sg_ = sign(zh(zz), kd, k=(N + 1) // 2)
+        except Exception as e:
+            ctx.count('short-r-signature-not-created')
+            continue
+        der_ = sg_.as_der_encoded()
+        ctx.count('short-signature:%d-bytes' % len(der_))
+        for nm, form in (('der+hashtype', der_), ('der+hashtype-hex', der_.hex()), ('raw64', sg_.bytes()), ('object', sg_)):
+            try:
+                ok_ = verify(zh(zz), form, kd.public())
+            except Exception as e:
+                ok_ = 'raise:' + type(e).__name__
+            ctx.evals += 1
+            if ok_ is not True:
+                ctx.violation('a valid signature with a short r is not accepted in one of its documented forms', {'op': 'verify short-r', 'form': nm, 'length': len(der_), 'observed': str(ok_)})
+        cases.append(('ecdsa_verify_rs %s %s %d %d' % (kd.public_byte.hex(), zh(zz), sg_.r, sg_.s), 'true' if sg_.s <= N // 2 else 'true-but-high-s', True)) if False else None
     # ---- DER parsing ----------------------------------------------------------------------------------------
     def lib_der(der):
         try:
